@@ -72,11 +72,9 @@ class Ledger(object):
 
     def floor(self, rule, found, floor):
         """Instance floor: a rule matching fewer sites than confirmed by hand is analysis-broken."""
+        # checked in finish(): a violation found elsewhere usually explains the missing instance and is the
+        # more useful verdict; without one, a rule below its floor means "I no longer know what I am looking at"
         self.floors[rule] = (found, floor)
-        if found < floor:
-            raise AnalysisError('rule %s matched %d instance(s), floor confirmed by reading is %d '
-                                '(an anchored construct vanished or is no longer recognisable)'
-                                % (rule, found, floor))
 
     def rule_count(self, rule):
         return sum(1 for o in self.obligations if o.rule == rule)
@@ -110,6 +108,12 @@ def finish(ledger, tier, seed, t0, rules_run, explanation, trusted_base, not_dec
             continue
         printed.add(k['id'])
         print('KNOWN-FINDING: property=%s %s [%s at %s]' % (pid, k['what'], o.rule, o.site))
+    deficits = ['rule %s matched %d instance(s), floor confirmed by reading is %d' % (r, a, b)
+                for r, (a, b) in sorted(ledger.floors.items()) if a < b]
+    if deficits and not new:
+        raise AnalysisError('; '.join(deficits) + ' (an anchored construct vanished or is no longer recognisable)')
+    for d in deficits:
+        print('  note: ' + d)
     replay_dir = os.path.join(EVIDENCE_DIR, 'replay')
     replays = []
     if new:
